@@ -92,6 +92,10 @@ fn nt_c10(r: &RunOut) -> bool {
     ix.gates.iter().any(|g| g.pieces.len() > 1) || ix.fault("frag") > 0
 }
 
+fn nt_c19(r: &RunOut) -> bool {
+    r.plan.tags.iter().any(|t| t.starts_with("limit:") || (t.starts_with("first:") && t != "first:connect"))
+}
+
 fn nt_c14(r: &RunOut) -> bool {
     crate::oracle::probe_c14(&Ix::new(r))
 }
@@ -253,6 +257,16 @@ pub fn spec(id: &str) -> Option<PropSpec> {
             nontrivial: nt_c17,
             assumptions: base,
         },
+        "C19" => PropSpec {
+            id: "C19",
+            level: "exploration",
+            families: vec![(Family::C19, 100)],
+            quick_runs: 24_000,
+            thorough_runs: 2_000_000,
+            rule: "server roles, plain v3 / v5 server or the combined (version sniffing) server in front of both. First packet: a valid CONNECT (keep-alive 0 / 10 / 60000), any other packet type, CONNECT with an unknown protocol name (MQTX, MQIsdp, mqtt, empty) or level (0, 3, 6, 255) or the reserved connect flag, handshake service refusing (every refusal code) / failing / answering slowly (gated); 1..2 small publishes are pipelined right behind it; the stream is delivered in one piece, byte at a time or in random cuts. After an accepted CONNECT one limit is probed at and just beyond its negotiated value: inbound maximum packet size (configured, or MQTT 5 handshake override), maximum QoS (configured / override), topic alias maximum (configured / override), receive maximum (configured / override, handlers held). Oracle: no publish/protocol handler before the handshake service accepted the CONNECT, none at all otherwise; invalid first packets never reach the handshake service and end the connection; a refusal is preceded by a CONNACK with the refusing code; the CONNECT is handled by the service of its protocol level with its fields intact and pipelined packets are handled after acceptance; MQTT 5 CONNACK announces receive maximum, maximum QoS, topic alias maximum, maximum packet size and an imposed keep-alive as in force; the probe at the limit is handled, the one beyond it is refused with a protocol error. Keep-alive 1.5x and the send window are judged by C20 and C05; distinct = abstract history signature; non-trivial = the first packet was not a plain accepted CONNECT, or a limit probe was delivered",
+            nontrivial: nt_c19,
+            assumptions: base,
+        },
         "C20" => PropSpec {
             id: "C20",
             level: "exploration",
@@ -269,4 +283,4 @@ pub fn spec(id: &str) -> Option<PropSpec> {
     })
 }
 
-pub const ALL: [&str; 16] = ["C02", "C10", "C03", "C04", "C05", "C06", "C07", "C08", "C11", "C12", "C13", "C14", "C15", "C16", "C17", "C20"];
+pub const ALL: [&str; 17] = ["C02", "C10", "C03", "C04", "C05", "C06", "C07", "C08", "C11", "C12", "C13", "C14", "C15", "C16", "C17", "C19", "C20"];
